@@ -205,6 +205,27 @@ def run(check):
         g = runfam.gen_terminating(check.seed, "c08-%d" % i, p_fail=0.3, outcomes=["error", "alt", "crash", "deployfail"])
         if g is not None:
             extra.append(g)
+    # the plugin answers the run-time deployment with a later release (same input, the success output has one more field):
+    # what enters the data model must still be what the workflow was typed with when it was prepared
+    for j, (shape, fn) in enumerate((("chain2", lambda r: gen.shape_chain(r, 2)), ("chain3", lambda r: gen.shape_chain(r, 3)), ("diamond", gen.shape_diamond), ("fan_in3", lambda r: gen.shape_fan_in(r, 3)))):
+        rng = random.Random(derive_seed(check.seed, "c08-grown", j))
+        steps0, _o = fn(rng)
+        for victim in [s_.name for s_ in steps0 if s_.kind == "plugin"]:
+            rng = random.Random(derive_seed(check.seed, "c08-grown", j))
+            steps, outs = fn(rng)
+            outs["whole_" + victim] = {"v": Expr(Ref(victim, "outputs", "success"))}
+            outs["crashed_" + victim] = {"why": Expr(Ref(victim, "crashed", "error", "output"))}
+            scripts = gen.make_scripts(steps, {})
+            scripts[victim]["deploys"] = [{}, {"schema": "grown"}]
+            extra.append({"program": Program(steps, outs, gen.BASE_INPUT), "scripts": scripts, "input": gen.base_input(rng), "shape": "plugin-release-changed/%s@%s" % (shape, victim), "outcome": {},
+                          "pair": None, "drift": True})
+    # a loop cancelled while its items run, its results used by a workflow output
+    from .. import cancelfam
+    for j in range(check.pick(10, 60)):
+        rng = random.Random(derive_seed(check.seed, "c08-cancel-loop", j))
+        prog, scripts, name = (cancelfam.prog_foreach_hang if j % 2 else cancelfam.prog_foreach_partial)(rng)
+        extra.append({"program": prog, "scripts": scripts, "input": cancelfam.base_input(rng), "shape": "cancelled-loop/" + name, "outcome": {}, "pair": None, "drift": True,
+                      "triggers": [{"kind": "exec-start", "src": "sub_w0", "nth": rng.choice([1, 2]), "action": "cancel:0"}]})
     # ill-typed single-point corruptions of valid programs: whatever preparation decides about them, a run of an accepted one
     # must not end in an internal consistency error or hand over / return ill-typed data
     from . import c10
@@ -221,8 +242,10 @@ def run(check):
     check.extra["illtyped_corruptions_run"] = ncor
     items = []
     for i, g in enumerate(gs + extra):
-        if g.get("corruption"):
+        if g.get("corruption") or g.get("drift"):
             case = {"id": "c08-%05d" % i, "files": g["program"].files(), "scripts": g["scripts"], "runs": [{"input": g["input"]}]}
+            if g.get("triggers"):
+                case["triggers"] = g["triggers"]
             items.append((case, None, g))
             continue
         case, sem = runfam.build_case("c08-%05d" % i, g)
@@ -260,6 +283,17 @@ def run(check):
                 table[cell] = "blocked-by-known-finding: " + err[:120]
             elif cell:
                 table[cell] = "rejected: " + err[:150]
+            continue
+        if g.get("drift"):
+            run = (res.get("runs") or [{}])[0]
+            err = run.get("err") or ""
+            check.extra["drift_or_cancel_runs"] = check.extra.get("drift_or_cancel_runs", 0) + 1
+            if "bug:" in err.lower():
+                check.report("bug@" + mon.bug_class(err) + ":" + g["shape"].split("/")[0], "case %s (%s): internal consistency error: %s" % (cid, g["shape"], err[:300]), {"case": case, "result": runfam.strip(res)})
+            elif run.get("schema_check"):
+                check.report("schema@workflow-output:" + g["shape"].split("/")[0], "case %s (%s): returned output %r does not match OutputSchema(): %s" % (cid, g["shape"], run.get("out_id"), run["schema_check"][:300]),
+                             {"case": case, "result": runfam.strip(res)})
+            check.nontrivial(g["shape"])
             continue
         if g.get("corruption"):
             st_ = check.extra.setdefault("illtyped_corruptions", {"rejected": 0, "accepted": 0})
